@@ -31,6 +31,7 @@ type Lox struct {
 	Panic    any
 	PanicStk string
 	Fset     *gotoken.FileSet
+	Report   string
 }
 
 // File is one .lox source.
@@ -77,10 +78,28 @@ func Front(files []File) (res *Lox) {
 	res.G = ctx.Grammar
 	res.Modes = ctx.LexerDFAs
 	res.T = lr1.ConstructLALR(ctx.Grammar)
+	if FrontReport {
+		// what `lox --report` prints at this point (codegen/parse_lox.go), conflicts or not
+		res.Stage = "report"
+		var rep strings.Builder
+		res.T.Print(&rep)
+		var ms []*mode.Mode
+		for _, m := range ctx.LexerDFAs {
+			ms = append(ms, m)
+		}
+		sort.Slice(ms, func(i, j int) bool { return ms[i].Index < ms[j].Index })
+		for _, m := range ms {
+			m.DFA.Print(&rep)
+		}
+		res.Report = rep.String()
+	}
 	res.OK = true
 	res.Stage = "done"
 	return
 }
+
+// FrontReport makes Front also render the --report text (set by checks that want that path covered).
+var FrontReport bool
 
 // Front1 is Front for a single file.
 func Front1(text string) *Lox { return Front([]File{{"g.lox", text}}) }
